@@ -168,3 +168,29 @@ Proof.
   { rewrite !run_app. cbn [run_from fold_left]. rewrite Est. reflexivity. }
   split; [rewrite Est; exact Hdet|]. split; [exact Erun|rewrite Erun; reflexivity].
 Qed.
+
+(* ------------------------------------------------------------------ the client glue keeps only final answers *)
+Lemma cacheable_spec v : cacheable v = cs_committed v || cs_rolledback v.
+Proof.
+  destruct v as [[ttl c] a]. unfold cacheable, determined3, cs_committed, cs_rolledback.
+  destruct (0 <? c) eqn:Ec; [reflexivity|]. apply N.ltb_ge in Ec. assert (c = 0) by lia. subst c. cbn [N.eqb orb].
+  rewrite andb_true_r. destruct ((ttl =? 0) && rollback_action a); reflexivity.
+Qed.
+
+(* every memoised status is cacheable; a hit returns the memoised status without a request; a miss sends one request and
+   memoises its answer iff it is cacheable *)
+Lemma get_txn_status_inv cache txn ans : Forall (fun e => cacheable (snd e) = true) cache ->
+  let '(v, cache', sent) := get_txn_status cache txn ans in
+  Forall (fun e => cacheable (snd e) = true) cache' /\
+  (sent = false -> memo_get cache txn = Some v /\ cache' = cache /\ cacheable v = true) /\
+  (sent = true -> memo_get cache txn = None /\ v = cview ans /\ memo_get cache' txn = (if cacheable v then Some v else None)).
+Proof.
+  intros Hc. unfold get_txn_status. destruct (memo_get cache txn) as [v|] eqn:Em.
+  - split; [exact Hc|]. split; [|discriminate]. intros _. split; [reflexivity|]. split; [reflexivity|].
+    clear -Hc Em. induction cache as [|[t0 v0] r IH]; [discriminate|]. inversion Hc; subst. cbn [memo_get] in Em.
+    destruct (t0 =? txn); [inversion Em; subst; assumption|apply IH; assumption].
+  - cbv zeta. destruct (cacheable (cview ans)) eqn:Ec.
+    + split; [constructor; assumption|]. split; [discriminate|]. intros _. split; [reflexivity|]. split; [reflexivity|].
+      cbn [memo_get]. rewrite N.eqb_refl. reflexivity.
+    + split; [exact Hc|]. split; [discriminate|]. intros _. split; [reflexivity|]. split; [reflexivity|exact Em].
+Qed.
